@@ -171,19 +171,71 @@ pub fn run(tier: &str, seed: u64, out: &str) {
             (n, distinct, samples)
         },
     );
-    let n: u64 = results.iter().map(|r| r.0).sum();
-    let distinct: u64 = results.iter().map(|r| r.1).sum();
+
+    // ---- dense sweep: every own clock value of a range (step 1), so that no threshold between
+    // grid points (reserve, caps, minimum thinking times, overheads) can hide; a few opponent
+    // values and token orders per point
+    let dense_to: u64 = if tier == "thorough" { 200_000 } else { 12_000 };
+    let chunk: u64 = 500;
+    let mut dunits: Vec<(bool, u64)> = Vec::new();
+    for stm in [true, false] {
+        let mut a = 0;
+        while a <= dense_to {
+            dunits.push((stm, a));
+            a += chunk;
+        }
+    }
+    let orders: [[usize; 4]; 4] = [[0, 1, 2, 3], [3, 2, 1, 0], [1, 0, 3, 2], [2, 3, 0, 1]];
+    let dres: Vec<(u64, u64)> = par_map_init(
+        &dunits,
+        || (make_engine(true), make_engine(false)),
+        |engines, &(stm, from)| {
+            crate::search::verif::set_dry_run(true);
+            let fl = if stm { &mut engines.0 } else { &mut engines.1 };
+            let mut baseline: HashMap<(bool, u64, u64), u128> = HashMap::new();
+            let mut n = 0u64;
+            let mut distinct = 0u64;
+            for own_time in from..(from + chunk).min(dense_to + 1) {
+                let mut incs: Vec<u64> = vec![0, 1, 100, 1000, 60_000, own_time.saturating_sub(1), own_time, own_time + 1, own_time / 2];
+                incs.sort();
+                incs.dedup();
+                for own_inc in incs {
+                    distinct += 1;
+                    for (opp_time, opp_inc) in [(0u64, 0u64), (7, 50_000), (3_600_000, 3)] {
+                        let vals = if stm { [own_time, opp_time, own_inc, opp_inc] } else { [opp_time, own_time, opp_inc, own_inc] };
+                        for perm in &orders {
+                            if rep.saturated() {
+                                return (n, distinct);
+                            }
+                            let mut line = "go".to_string();
+                            for &t in perm {
+                                line.push_str(&format!(" {} {}", names[t], vals[t]));
+                            }
+                            n += 1;
+                            check_line(fl, stm, &line, own_time, own_inc, &mut baseline, &rep);
+                        }
+                    }
+                }
+            }
+            (n, distinct)
+        },
+    );
+    let dn: u64 = dres.iter().map(|r| r.0).sum();
+    let ddistinct: u64 = dres.iter().map(|r| r.1).sum();
+    let n: u64 = results.iter().map(|r| r.0).sum::<u64>() + dn;
+    let distinct: u64 = results.iter().map(|r| r.1).sum::<u64>() + ddistinct;
     let samples: Vec<String> = results.iter().flat_map(|r| r.2.iter().cloned()).take(8).collect();
     let cov = J::obj()
         .set("evaluations", n)
         .set("distinct_nontrivial", distinct)
         .set("rule", "grid: own time in 19 values (0 .. 24 h, dense around the 5 s reserve) x own increment in 6 values x opponent time 19 x opponent increment 6 x all 24 orders of the four token pairs x {no prefix, 'depth 5'} x both sides to move; plus every presence subset containing the mover's time in every order. A case is distinct by (side to move, own time, own increment); all other dimensions must not change the budget.")
+        .set("dense_sweep", J::obj().set("own_time_from", 0u64).set("own_time_to", dense_to).set("step", 1u64).set("go_lines", dn).set("own_clock_points", ddistinct).set("increments_per_point", "0, 1, 100, 1000, 60000, time-1, time, time+1, time/2").set("opponent_clocks_per_point", 3u64).set("token_orders_per_point", 4u64))
         .set("exhaustive", true)
         .set("samples", samples);
     rep.finish(
         "exploration",
         cov,
-        vec!["clock values between grid points behave like their neighbours (the allocation is piecewise linear: (time-5000)/25 + inc, capped)".into(), "tokens other than wtime/btime/winc/binc (movestogo, ...) are outside the property's quantifier and are not generated".into()],
+        vec!["clock values beyond the dense sweep and between grid points behave like their neighbours (the allocation is piecewise linear: (time-5000)/25 + inc, capped)".into(), "tokens other than wtime/btime/winc/binc (movestogo, ...) are outside the property's quantifier and are not generated".into()],
         out,
     );
 }
